@@ -75,10 +75,6 @@ def rule_prologue_trailer(check):
     prog = check.prog
     from ..trav import overrides_of
 
-    vp = [f for f in overrides_of(prog, "BlockTransformVisitor") if f.name == "visit_mut_program"]
-    if len(vp) != 1:
-        raise AnchorMissing("BlockTransformVisitor::visit_mut_program")
-    f = vp[0]
     # role-based: every read of Config.file_prefix_code (the statements of the prologue) in the visitors
     reads = []
     for g in prog.user_fns:
@@ -93,7 +89,7 @@ def rule_prologue_trailer(check):
         if ok and extra:
             check.bad(R, "%s/prologue/%s" % (R, v[0] if v else g.name), hir.loc(n), "the prologue is inserted only if %s: a Modified file can come back without its prologue" % "; ".join(extra))
             continue
-        check.expect(ok and g is f, R, "%s/prologue/%s" % (R, v[0] if v else g.name), hir.loc(n), "prologue statements are read (for insertion) under status == Modified", "the prologue statements are used in %s without a status == Modified guard" % g.name)
+        check.expect(ok, R, "%s/prologue/%s" % (R, v[0] if v else g.name), hir.loc(n), "prologue statements are read (for insertion) under status == Modified", "the prologue statements are used in %s without a status == Modified guard" % g.name)
     pj = prog.fn("rewriter::print_js")
     fmts = [n for n in hir.walk(pj.body) if n.get("exp") and (n.get("macro") or "").endswith("format")]
     tr_nodes = [n for n in hir.walk(pj.body) if n.get("k") == "Lit" and n["lit"]["t"] == "str" and "application/json;base64" in str(n["lit"]["v"])]
